@@ -10,6 +10,7 @@ natural ids, self loops, parallel and antiparallel edges, isolated and repeated 
 -/
 import Dawgs.Proofs.C14Glue
 import Dawgs.Proofs.C14Heap
+import Dawgs.Proofs.C14Oracle
 namespace Dawgs.C14.Props
 open Dawgs.C14
 
@@ -228,6 +229,71 @@ theorem normalize_iso (ops : List Op) :
   exact ⟨⟨Asc.nodup ra.asc, ra.nodes, fun i v hi d j => AdjMap.normalize_spec ra (G.closed_ofOps ops) hi d j⟩,
          ⟨rc.nodup, rc.nodes, fun i v hi d j => Csr.normalize_spec rc hi d j⟩⟩
 
+/-- `Normalize` renumbers onto exactly `0 … n-1`: the normalised graph lists those ids, each once, and as many as
+the original has nodes. -/
+theorem normalize_nodes (ops : List Op) :
+    let n := (AdjMap.build ops).numNodes
+    let na := (AdjMap.build ops).normalize
+    let nc := (Csr.ofOps ops).normalize
+    (na.2.nodes.Nodup ∧ (∀ i, i ∈ na.2.nodes ↔ i < n) ∧ na.2.numNodes = n ∧ na.1.length = n) ∧
+    (nc.2.nodes = List.range n ∧ nc.2.numNodes = n ∧ nc.1.length = n) := by
+  intro n na nc
+  have hmem : ∀ i, i ∈ na.2.nodes ↔ i < n := by
+    intro i
+    show i ∈ sofList (List.range (AdjMap.build ops).nodes.length) ↔ _
+    rw [mem_sofList, List.mem_range]; rfl
+  have hnd : na.2.nodes.Nodup := Asc.nodup (asc_sunion asc_nil)
+  have hlen : na.2.numNodes = n := by
+    have := length_eq_of_nodup_mem hnd (List.nodup_range (n := n)) (fun x => by rw [hmem x, List.mem_range])
+    rw [List.length_range] at this; exact this
+  have hcn : (Csr.ofOps ops).numNodes = n := ((numNodes_eq ops).2.2.2.2.2.2.1).symm
+  refine ⟨⟨hnd, hmem, hlen, rfl⟩, ?_, ?_, ?_⟩
+  · show List.range (Csr.ofOps ops).denseToId.length = List.range n
+    rw [show (Csr.ofOps ops).denseToId.length = (Csr.ofOps ops).numNodes from rfl, hcn]
+  · show (List.range (Csr.ofOps ops).denseToId.length).length = n
+    rw [List.length_range]; exact hcn
+  · exact hcn
+
+/-- ID NORMALISATION PRESERVES REACHABILITY AND DISTANCES: for normal ids `i, j` standing for `v = rev[i]`, `w = rev[j]`,
+`j` is ≥1-step reachable from `i` in the normalised graph iff `w` is from `v` in the ground truth, and the shortest
+walk lengths coincide — for the adjacency map and the CSR digraph, all three directions. (With `reach_eq` /
+`bfsTree_dist_eq` on the normalised graph's own callbacks this gives: Reach/BFSTree after Normalize = the naive
+answer renamed.) -/
+theorem normalize_preserves_dist (ops : List Op) (d : Dir) (i j v w : Nat) :
+    let g := G.ofOps ops
+    let na := (AdjMap.build ops).normalize
+    let nc := (Csr.ofOps ops).normalize
+    (na.1[i]? = some v → na.1[j]? = some w →
+      (Reachable (fun x => na.2.adjacent x d) i j ↔ Reachable (fun x => g.adj x d) v w) ∧
+      ∀ k, IsDist (fun x => na.2.adjacent x d) i j k ↔ IsDist (fun x => g.adj x d) v w k) ∧
+    (nc.1[i]? = some v → nc.1[j]? = some w →
+      (Reachable (fun x => nc.2.adjacent x d) i j ↔ Reachable (fun x => g.adj x d) v w) ∧
+      ∀ k, IsDist (fun x => nc.2.adjacent x d) i j k ↔ IsDist (fun x => g.adj x d) v w k) := by
+  intro g na nc
+  have h := normalize_iso ops
+  have hcl := G.closed_ofOps ops
+  constructor
+  · intro hi hj
+    exact isDist_iso (fun x => g.adj x d) (fun x => na.2.adjacent x d) na.1 h.1.1
+      (fun i v hi j => h.1.2.2 i v hi d j)
+      (fun v w hw => List.getElem?_of_mem ((h.1.2.1 w).mpr (adj_mem_nodes hcl hw))) i v j w hi hj
+  · intro hi hj
+    exact isDist_iso (fun x => g.adj x d) (fun x => nc.2.adjacent x d) nc.1 h.2.1
+      (fun i v hi j => h.2.2.2 i v hi d j)
+      (fun v w hw => List.getElem?_of_mem ((h.2.2.1 w).mpr (adj_mem_nodes hcl hw))) i v j w hi hj
+
+/-- THE MONITOR'S ORACLE IS THE SPEC: the naive layer-by-layer computation on the edge list that judges the real
+containers (`naiveReach` / `naiveDists`, walks of ≤ n steps) returns exactly the ≥1-step reachable set and exactly the
+shortest-walk lengths, for every graph whose edge end points are nodes, every direction and every bound
+`n ≥ number of distinct nodes` (pigeonhole, proved through the BFS theorem). The monitor uses `n = |nodes| + 1`. -/
+theorem oracle_exact (g : G) (hc : g.Closed) (d : Dir) (s n : Nat) (hn : (canon g.nodes).length ≤ n) :
+    (∀ w, w ∈ naiveReach (fun v => g.adj v d) s n ↔ Reachable (fun v => g.adj v d) s w) ∧
+    (∀ w k, (w, k) ∈ naiveDists (fun v => g.adj v d) s n ↔ IsDist (fun v => g.adj v d) s w k) := by
+  have hadj : ∀ v w, w ∈ g.adj v d → w ∈ canon g.nodes := by
+    intro v w hw
+    unfold canon; rw [mem_sofList]; exact adj_mem_nodes hc hw
+  exact ⟨fun w => naiveReach_exact _ (canon g.nodes) hadj s n hn w, fun w k => naiveDists_exact _ (canon g.nodes) hadj s n hn w k⟩
+
 /-- `UnmarshalSegment (MarshalSegment s) = s` for every non-empty chain of 64-bit ids whose root `Edge` is 0
 (the root's `Edge` field is not serialised). Bytes are modelled as naturals; all written bytes are < 256. -/
 theorem segment_roundtrip (s : List Seg) (hne : s ≠ []) (h64 : ∀ x ∈ s, x.node < 2 ^ 64 ∧ x.edge < 2 ^ 64)
@@ -261,6 +327,42 @@ theorem segment_roundtrip (s : List Seg) (hne : s ≠ []) (h64 : ∀ x ∈ s, x.
         simp only [List.length_cons] at ih ⊢
         have := ih (by simp)
         omega
+
+/-! ### Factory / builder entry points -/
+
+/-- `BuildAdjacencyMapGraph(desc)` and `util.BuildGraph(NewCSRDigraphBuilder, desc)` present the SAME graph for every
+adjacency description: its nodes are every key of the map — whatever its out-list, empty and nil included (isolated
+nodes) — and every destination; its edges are the listed pairs; node counts and edge counts agree.
+(`descOps desc` is what both factories do: `AddNode(src)`, then `AddNode(dst); AddEdge(src, dst)` per destination.) -/
+theorem factories_eq (desc : Desc) :
+    let ops := descOps desc
+    let g := G.ofOps ops
+    Presents (AdjMap.build ops).adjacent g ∧ Presents (Csr.ofOps ops).adjacent g ∧
+    (∀ n, n ∈ g.nodes ↔ ∃ kv ∈ desc, n = kv.1 ∨ n ∈ kv.2) ∧
+    (∀ s t, HasEdge g.edges s t ↔ ∃ kv ∈ desc, kv.1 = s ∧ t ∈ kv.2) ∧
+    (∀ kv ∈ desc, kv.1 ∈ (AdjMap.build ops).nodes ∧ kv.1 ∈ (Csr.ofOps ops).nodes) ∧
+    (AdjMap.build ops).numNodes = (Csr.ofOps ops).numNodes ∧ (AdjMap.build ops).numEdges = (Csr.ofOps ops).numEdges := by
+  intro ops g
+  have hn := numNodes_eq ops
+  have hnodes := desc_nodes desc
+  refine ⟨adjmap_adj_eq ops, csr_adj_eq ops, hnodes, desc_edges desc, ?_, hn.2.2.2.2.2.2.1,
+    (AdjMap.numEdges_spec (AdjMap.rel_build ops)).trans (Csr.numEdges_spec (CsrB.rel_ofOps ops)).symm⟩
+  intro kv hkv
+  have : kv.1 ∈ g.nodes := (hnodes kv.1).mpr ⟨kv, hkv, Or.inl rfl⟩
+  exact ⟨(hn.1.2 kv.1).mpr this, (hn.2.1.2 kv.1).mpr this⟩
+
+/-- `FetchDirectedGraph` / `FetchFilteredDirectedGraph`: the CSR digraph of the selected relationships presents exactly
+those (start, end) pairs; its nodes are their end points and nothing else. -/
+theorem fetch_eq (sel : Edge → Bool) (edges : List Edge) :
+    let ops := fetchOps sel edges
+    let g := G.ofOps ops
+    Presents (Csr.ofOps ops).adjacent g ∧
+    (∀ n, n ∈ (Csr.ofOps ops).nodes ↔ ∃ e ∈ edges, sel e = true ∧ (n = e.start ∨ n = e.stop)) ∧
+    (∀ s t, HasEdge g.edges s t ↔ ∃ e ∈ edges, sel e = true ∧ e.start = s ∧ e.stop = t) := by
+  intro ops g
+  refine ⟨csr_adj_eq ops, fun n => ?_, fetch_edges sel edges⟩
+  rw [(numNodes_eq ops).2.1.2 n]
+  exact fetch_nodes sel edges n
 
 /-! ### Projection handles: nested projections are immutable values -/
 
@@ -536,7 +638,7 @@ def C14_for (fixed : Bool) : Prop :=
 
 /-- C14 at full strength, about the code AS IT IS. (Stores carrying `DeleteEdge` tombstones are covered for the
 store itself; their projections, `BFSTreeFile.ReadEach` and `SerializedSegment.ToSegment` are the remaining known
-findings, stated precisely in `proj_tombstone_partial/_refuted`, `toSegment_panics`; TSBFS/TSDFS/TSStatelessBFS
+findings, stated precisely in `proj_tombstone_partial/_refuted`; TSBFS/TSDFS/TSStatelessBFS
 have their own theorems below.) -/
 def C14_full : Prop := C14_for true
 
@@ -573,11 +675,61 @@ theorem c14_old_partial :
    fun ops dels dn de d s hd c hc =>
      ⟨reach_eq_gen false ops dels dn de d (Or.inl hd) s c hc, bfsTree_dist_eq_gen false ops dels dn de d (Or.inl hd) s c hc⟩⟩
 
-/-- KNOWN FINDING (C14:SerializedSegment.ToSegment:Edges-index-minus-one-panic), precise statement: `ToSegment`
-panics (`none`) on EVERY serialized segment that has a node and an edge; it only works for edge-less input,
-where it keeps the last node. -/
-theorem toSegment_panics (n : Nat) (ns : List Nat) (e : Nat) (es : List Nat) : toSegment (n :: ns) (e :: es) = none := rfl
-theorem toSegment_partial (n : Nat) : toSegment [n] [] = some [⟨n, 0⟩] := rfl
+/-! ### SerializedSegment.ToSegment (repaired by hooks/C14-fix4.patch: `s.Edges[nodeIndex]`) -/
+
+/-- closed form on well-formed input (`|Edges| + 1 = |Nodes|`, both root-first): node `i+1` carries edge `i`, the
+root's `Edge` stays 0; the chain is returned terminal-first. -/
+theorem toSegment_wf (n : Nat) (ns es : List Nat) (h : es.length = ns.length) :
+    toSegment (n :: ns) es = (List.zipWith Seg.mk ns es).reverse ++ [⟨n, 0⟩] := by
+  rw [toSegment_eq_pairs, toSegPairs_wf ns es n 0 [] h]
+
+/-- `ToSegment` inverts the obvious serialisation, for EVERY segment chain whose root `Edge` is 0 … -/
+theorem toSegment_serialize (seg : List Seg) (hne : seg ≠ []) (hroot : (seg.getLast hne).edge = 0) :
+    toSegment (serialize seg).1 (serialize seg).2 = seg := by
+  obtain ⟨s, t, hst⟩ : ∃ s t, seg.reverse = s :: t := by
+    cases hr : seg.reverse with
+    | nil => exact absurd (List.reverse_eq_nil_iff.mp hr) hne
+    | cons s t => exact ⟨s, t, rfl⟩
+  have hseg : seg = t.reverse ++ [s] := by
+    have := congrArg List.reverse hst
+    simpa using this
+  have hs0 : s.edge = 0 := by
+    have : seg.getLast hne = s := by
+      simp [hseg]
+    rw [this] at hroot; exact hroot
+  unfold serialize
+  simp only
+  rw [hst, toSegment_eq_pairs]
+  have hd : (seg.dropLast.map (·.edge)).reverse = t.map (·.edge) := by
+    rw [hseg]; simp
+  rw [hd, toSegPairs_chain t s [] 0, hseg]
+  congr 2
+  cases s; simp_all
+
+/-- … and the serialisation inverts `ToSegment` on every well-formed input. -/
+theorem serialize_toSegment (n : Nat) (ns es : List Nat) (h : es.length = ns.length) :
+    serialize (toSegment (n :: ns) es) = (n :: ns, es) := by
+  rw [toSegment_wf n ns es h]
+  unfold serialize
+  simp [zipWith_map_node ns es h, zipWith_map_edge ns es h]
+
+/-- ill-formed input, case by case (no totalised default): no nodes → the zero segment, whatever the edges; -/
+theorem toSegment_no_nodes (es : List Nat) : toSegment [] es = [⟨0, 0⟩] := rfl
+
+/-- `|Edges| ≥ |Nodes| ≥ 1`: the first surplus edge `x` opens a dangling terminal with `Node = 0`, later edges are ignored; -/
+theorem toSegment_excess_edges (n : Nat) (ns es : List Nat) (x : Nat) (extra : List Nat) (h : es.length = ns.length) :
+    toSegment (n :: ns) (es ++ x :: extra) = ⟨0, x⟩ :: toSegment (n :: ns) es := by
+  rw [toSegment_eq_pairs, toSegment_eq_pairs, toSegPairs_excess ns es n 0 [] x extra h]
+
+/-- `|Edges| + 1 < |Nodes|`: the nodes beyond the well-formed prefix overwrite the terminal's `Node`; only the last survives. -/
+theorem toSegment_missing_edges (n : Nat) (ns es : List Nat) (m : Nat) (ms : List Nat) (h : es.length = ns.length) :
+    toSegment (n :: ns ++ m :: ms) es = setHeadNode ((m :: ms).getLast (List.cons_ne_nil m ms)) (toSegment (n :: ns) es) := by
+  rw [toSegment_eq_pairs, toSegment_eq_pairs]
+  exact toSegPairs_missing ns es n 0 [] m ms h
+
+/-- C14:SerializedSegment.ToSegment:Edges-index-minus-one-panic (repaired): before the repair `ToSegment` panicked
+(`none`) on EVERY serialized segment that has a node and an edge. -/
+theorem toSegment_panics_old (n : Nat) (ns : List Nat) (e : Nat) (es : List Nat) : toSegmentOld (n :: ns) (e :: es) = none := rfl
 
 /-! ### Non-vacuity: the hypotheses are satisfiable on non-trivial states, and the models are not degenerate.
 Graph: isolated node 9, self loop on 5, parallel edges 7→3 (twice), antiparallel 3→7, chain 7→3→5, sparse id 2^40. -/
@@ -609,7 +761,9 @@ example : marshal [⟨258, 0⟩] = [2, 1, 0, 0, 0, 0, 0, 0] := by decide
 -- the root's Edge is really lost (why the hypothesis is needed)
 example : unmarshal (marshal [⟨1, 5⟩]) = some [⟨1, 0⟩] := by decide
 -- F3: `SerializedSegment.ToSegment` as it is panics (`none`) on every input with an edge
-example : toSegment [1, 2] [7] = none ∧ toSegment [1] [] = some [⟨1, 0⟩] := by decide
+example : toSegmentOld [1, 2] [7] = none ∧ toSegment [1, 2] [7] = [⟨2, 7⟩, ⟨1, 0⟩] ∧ toSegment [1] [] = [⟨1, 0⟩] ∧
+          serialize [⟨5, 14⟩, ⟨4, 13⟩, ⟨3, 0⟩] = ([3, 4, 5], [13, 14]) ∧ toSegment [3, 4, 5] [13, 14] = [⟨5, 14⟩, ⟨4, 13⟩, ⟨3, 0⟩] ∧
+          toSegment [1, 2] [7, 8, 9] = [⟨0, 8⟩, ⟨2, 7⟩, ⟨1, 0⟩] ∧ toSegment [1, 2, 3, 4] [7] = [⟨4, 7⟩, ⟨1, 0⟩] := by decide
 -- `Terminates`: both disjuncts are satisfiable — a depth bound, and a rank for the acyclic chain 7→3→5→2^40 …
 example : Terminates (G.ofOps demoOps) .out (fun _ => true) 2 := Or.inl (by decide)
 example : Terminates (G.ofOps [.edge 1 7 3, .edge 2 3 5]) .out (fun _ => true) 0 :=
@@ -643,6 +797,13 @@ example :
     (HState.run run).handles.lookup "p" = some ([4], []) ∧ (HState.run run).handles.lookup "c" = some ([3, 4], [11]) ∧
     ((HState.run run).view "p").map (·.nodes) = some [1, 2, 3] ∧ ((HState.run run).view "c").map (·.nodes) = some [1, 2] ∧
     ((HState.run run).view "p").map (fun p => Proj.adjacent true p 1 .out) = some [2, 3] := by decide
+-- the oracle on the demo graph: 7 reaches 3 (1 step), 7 and 5 (2), 2^40 (3); 9 reaches nothing
+example : naiveDists (fun v => (G.ofOps demoOps).adj v .out) 7 6 = [(3, 1), (5, 2), (7, 2), (1099511627776, 3)] ∧
+          naiveReach (fun v => (G.ofOps demoOps).adj v .out) 9 6 = [] := by decide
+-- factories: key 9 with an empty list and key 8 with a nil list (both `[]` in the model) are nodes of both containers
+example : (AdjMap.build (descOps [(7, [3, 3]), (9, []), (8, []), (4294967296, [7])])).nodes = [3, 7, 8, 9, 4294967296] ∧
+          (Csr.ofOps (descOps [(7, [3, 3]), (9, []), (8, []), (4294967296, [7])])).numNodes = 5 ∧
+          (Csr.ofOps (fetchOps (fun e => e.id % 2 == 1) [⟨11, 1, 2⟩, ⟨12, 2, 3⟩])).nodes = [1, 2] := by decide
 -- `IsDist` is not vacuous: 5 is at distance 2 from 7, and not at distance 1
 example : (5 ∈ walkEnds (fun v => (G.ofOps demoOps).adj v .out) 7 2) ∧ ¬ (5 ∈ walkEnds (fun v => (G.ofOps demoOps).adj v .out) 7 1) := by decide
 
